@@ -1710,7 +1710,7 @@ def execute_threads(plan, want_trace=False) -> dict:
     counters['sim_id_calls'] = alloc.calls
     res = {'digest': trace.digest(), 'violation': violation, 'counters': counters,
            'nontrivial': sched.switches > 0, 'nops': sum(len(x) for x in plan['threads']),
-           'states': [h64('sched', canon(sched.schedule_out))],
+           'states': [h64('sched', canon(sched.schedule_out))], 'schedule_hash': h64('sched', canon(sched.schedule_out)),
            'schedule': sched.schedule_out}
     if want_trace:
         res['trace'] = trace.events + [('schedule_full', sched.schedule_out)]
@@ -1921,6 +1921,7 @@ def coverage(agg, conf):
                  "fault, mutated a handler dict, hit the equal-but-reordered subscript case, or (thread runs) had at least one "
                  "context switch"),
         'samples': agg['samples'][:3],
+        'distinct_thread_schedules': len(agg.get('schedules', ())),
         'states': len(agg['states']),
         'states_measure': 'distinct (memo size, live roots, free addresses, live allocator entries, kept instances) tuples after an operation, plus distinct complete thread schedules',
         'faults_fired': {
